@@ -2,7 +2,7 @@ SPECIFICATION Spec
 INVARIANT Unambiguous
 CONSTANTS
   Family = "d2"
-  IntAtoms = {"a", "b", "2"}
+  IntAtoms = {"a", "2", "-3"}
   BoolAtoms = {"u", "true"}
   Emit = TRUE
   CombSizes = {}
